@@ -54,7 +54,7 @@ def _deviation(ctx, name, inv):
 
 def _schedules(ctx, q):
     hs, seen = [], set()
-    for h in ctx.tlc_sim("synccrash", "SyncCrashSim.tla", "Sim_SyncCrash.cfg", num=150 if q else 600, depth=40, timeout=600,
+    for h in ctx.tlc_sim("synccrash", "SyncCrashSim.tla", "Sim_SyncCrash.cfg", num=150 if q else 1400, depth=40, timeout=600,
                          seed=ctx.seed + 11):
         k = json.dumps(h)
         if k not in seen and any(s["op"] == "flush" for s in h):
@@ -90,7 +90,7 @@ def run_ext(ctx):
     ctx.extra["synccrash_deviations_refuted"] = done
     # 2. delivery schedules from the model
     scheds = _schedules(ctx, q)
-    nw, per = (4, 5) if q else (14, 10)
+    nw, per = (4, 5) if q else (36, 14)
     scheds = scheds[: nw * per]
     if len(scheds) < nw:
         raise vlib.Inconclusive("synccrash: too few delivery schedules (%d)" % len(scheds))
@@ -98,8 +98,8 @@ def run_ext(ctx):
     os.makedirs(ind, exist_ok=True)
     json.dump(scheds, open(os.path.join(ind, "schedules.json"), "w"))
     # 3. the real node
-    env = {"VERIF_IN": ind, "VERIF_WORLDS": nw, "VERIF_PER_WORLD": per, "VERIF_RANDOM": 3 if q else 5, "VERIF_POINTS": 12,
-           "VERIF_LONG_WORLDS": 1 if q else 3}
+    env = {"VERIF_IN": ind, "VERIF_WORLDS": nw, "VERIF_PER_WORLD": per, "VERIF_RANDOM": 3 if q else 6, "VERIF_POINTS": 12,
+           "VERIF_LONG_WORLDS": 1 if q else 4, "VERIF_TORN_ROUNDS": 4 if q else 30}
     res = ctx.go_driver("c02synccrash", "TestDriver", env=env, timeout=3400)
     ctx.absorb(res)
     ctx.traces_validated += res.get("traces", 0)
